@@ -143,6 +143,18 @@ def run_unit(A, unit, rep, tier):
                              [n.where() + ": " + n.stmt], g.label)
             if n.kind == "dyn_attr" and n["op"] in ("setattr", "delattr"):
                 rep.fail("C18.e", norm_key("C18.e", n.func, n.stmt), f"{n.func}: dynamic `{n.stmt}` on a mutator path: item access must never touch the object's attributes", [n.where()], g.label)
+    # (f) item access / iteration hand out the LIVE nested nodes (so that mutating them persists), not plain copies
+    for m_ in ("__getitem__", "__iter__", "__reversed__", "get", "pop", "popitem", "setdefault"):
+        if m_ not in eps or eps[m_].module.name == ABC_MOD:
+            continue
+        b, g = A.graph(cls, m_, "root", "none")
+        plain = [n["ret"] for n in live(g) if n.kind == "leave" and n["fname"] in ("_to_base", "__call__") and n["ret"] is not None and n["ret"].kind in ("dict", "list", "comp")]
+        rv = g.nodes[g.exit]["ret"]
+        hit = rv is not None and plain and any(x in plain for x in rv.walk())
+        if hit:
+            rep.fail("C18.f", norm_key("C18.f", eps[m_].qualname), f"{eps[m_].qualname} hands out elements of a plain copy (`_to_base()` / `self()`) instead of the live nested nodes: a nested container obtained this way is not a synced collection and mutating it does not persist", [eps[m_].loc], g.label)
+        else:
+            rep.ok("C18.f")
     rep.floor(f"conversion call sites reached from {cls.name}", n_calls, 5)
     rep.ok("C18.e", f"C18.e {cls.name}: no dynamic setattr/delattr on mutator paths")
 
